@@ -489,4 +489,75 @@ theorem old_behaviour_leaked_dialect :
     dialects false [("pid", 5)] [some 3, none] = [3, 3] ∧ dialects true [("pid", 5)] [some 3, none] = [3, 2] := by
   constructor <;> decide
 
+/-! ## 8. Caller-owned arguments: the library only reads what the embedding application passes in -/
+
+/-- **shared_args_independent** (frame theorem for caller-owned arguments): if every call leaves the argument
+    object as it found it, an application that passes ONE object to any number of calls observes, for every call,
+    exactly what that call yields on the original object -/
+theorem shared_args_independent {A O : Type} (calls : List (A → A × O)) (a : A)
+    (h : ∀ c ∈ calls, ∀ x, (c x).1 = x) : runShared calls a = calls.map (fun c => (c a).2) := by
+  induction calls with
+  | nil => rfl
+  | cons c cs ih =>
+    simp only [runShared, List.map_cons]
+    rw [h c List.mem_cons_self a, ih (fun c' hc' => h c' (List.mem_cons_of_mem _ hc'))]
+
+/-- `merge_options` with read-only access returns the caller's dict unchanged, whatever is declared and supplied,
+    also when it fails with "No definition supplied" -/
+theorem merge_options_reads_only (ds : List (String × Option Int)) :
+    ∀ (user acc : Dict), (mergeOptions false ds user acc).1 = user := by
+  induction ds with
+  | nil => intro user acc; rfl
+  | cons d ds ih =>
+    intro user acc
+    obtain ⟨n, dflt⟩ := d
+    simp only [mergeOptions]
+    cases user.get? n with
+    | some v => exact ih user _
+    | none =>
+      cases dflt with
+      | some x => simpa using ih user _
+      | none => rfl
+
+/-- **caller_user_options_untouched**: `generate` leaves the caller's `user_options` alone -/
+theorem caller_user_options_untouched (ds : List (String × Option Int)) (user : Dict) :
+    (generateOptions false ds user).1 = user := by
+  simp only [generateOptions, merge_options_reads_only]; split <;> rfl
+
+/-- **options_independent_of_earlier_calls**: one `user_options` dict passed to any list of recipes (arbitrary
+    declarations, overlapping names, different defaults, some supplied, some not): every run resolves its options
+    as it would with the original dict -/
+theorem options_independent_of_earlier_calls (recipes : List (List (String × Option Int))) (user : Dict) :
+    runShared (recipes.map (generateOptions false)) user = recipes.map (fun ds => (generateOptions false ds user).2) := by
+  rw [shared_args_independent _ _ (by
+    intro c hc x
+    obtain ⟨ds, _, rfl⟩ := List.mem_map.mp hc
+    exact caller_user_options_untouched ds x)]
+  simp [List.map_map, Function.comp_def]
+
+/-- the same frame instance for `plugin_options` (D19c) -/
+theorem dialects_as_shared_calls (d : Dict) (vs : List (Option Int)) :
+    runShared (vs.map (fun v (x : Dict) => ((prepareOptions true x v).1, dialectOf (prepareOptions true x v).2))) d
+      = vs.map (fun v => dialectOf (prepareOptions true d v).2) := by
+  rw [shared_args_independent _ _ (by
+    intro c hc x
+    obtain ⟨v, _, rfl⟩ := List.mem_map.mp hc
+    exact caller_plugin_options_untouched x v)]
+  simp [List.map_map, Function.comp_def]
+
+/-- **write_back_leaks_default** — the access kind matters: with `user_options.setdefault(name, default)`
+    (`writesBack = true`) and the non-empty dict `{y: 5}`, a recipe declaring `x` with default 1 followed by a recipe
+    declaring `x` with default 2 runs the second one with `x = 1`; with read-only access it gets `x = 2` -/
+theorem write_back_leaks_default :
+    runShared ([[("x", some 1)], [("x", some 2)]].map (generateOptions true)) [("y", 5)]
+      = [some [("x", 1)], some [("x", 1)]]
+    ∧ runShared ([[("x", some 1)], [("x", some 2)]].map (generateOptions false)) [("y", 5)]
+      = [some [("x", 1)], some [("x", 2)]] := by
+  constructor <;> decide
+
+/-- an empty dict is replaced by a fresh one inside `generate`: it never carries anything to the next call,
+    even with write-back -/
+theorem empty_user_options_never_leak (ds : List (String × Option Int)) : (generateOptions true ds []).1 = [] := by
+  simp [generateOptions]
+
 end SnowModel.Props.C19
